@@ -47,6 +47,26 @@ def _same_value(func, e1, n1, e2, n2):
     return no_kill_between(cfg, o[0], o[1], [r1, r2])
 
 
+def _provably_differ(prog, func, e1, n1, e2, n2):
+    """Positive evidence that on some run name e1 at n1 and name e2 at n2 denote different nodes: one of them
+    is a parameter that is never re-bound, a definition reaching the other creates a new node."""
+    from ..values import value_cases
+    if not (isinstance(e1, ast.Name) and isinstance(e2, ast.Name)) or e1.id == e2.id:
+        return None
+    for (a, na), (b, nb) in (((e1, n1), (e2, n2)), ((e2, n2), (e1, n1))):
+        if b.id not in func.params or name_defs(func, b.id):
+            continue
+        try:
+            cases = value_cases(func, a.id, na)
+        except Exception:
+            return None
+        for c in cases:
+            if c.kind == 'value' and c.value is not None and is_tree_ctor(prog, func, c.value):
+                return '`%s` may hold the node created at line %d, `%s` is always the argument' % (
+                    a.id, func.cfg.nodes[c.node].lineno, b.id)
+    return None
+
+
 def movers(prog):
     """Functions of the package that contain structural events, with their events."""
     out = []
@@ -83,6 +103,12 @@ def _absence_verdict(prog, f, ev_node, loose_nodes, roots):
         return None, 'a call that receives the node may do it'
     if loose_nodes and not _uncovered_path(cfg, ev_node, loose_nodes):
         return None, 'a candidate partner exists on every path but could not be matched'
+    # a candidate under the very conditions of the event (tested a second time in a separate `if`) is skipped only on
+    # paths that cannot be taken
+    evf = set(fa for (fa, _) in facts_at(cfg, ev_node))
+    for c in loose_nodes:
+        if c != ev_node and cfg.same_loop(c, ev_node) and set(fa for (fa, _) in facts_at(cfg, c)) <= evf:
+            return None, 'a candidate partner runs under the same conditions, tested separately'
     return False, ''
 
 
@@ -122,8 +148,19 @@ def r_link(prog, tier):
             verdict, note = True, ''
             if found is None:
                 loose = [p.node for p in pars if not _is_none(p.q) and (path(p.x) is None or path(a.x) is None
+                                                                       or path(p.x) == path(a.x)
                                                                        or _same_value(f, a.x, a.node, p.x, p.node))]
                 verdict, note = _absence_verdict(prog, f, a.node, loose, [root_name(a.x), root_name(a.q)])
+                if verdict is None:
+                    # a partner for the same node that names another parent, provably a different one on some run
+                    for p in pars:
+                        if _is_none(p.q) or not cfg.same_loop(a.node, p.node) or not cfg.always_with(a.node, p.node):
+                            continue
+                        if path(a.x) and _same_value(f, a.x, a.node, p.x, p.node):
+                            dv = _provably_differ(prog, f, a.q, a.node, p.q, p.node)
+                            if dv:
+                                verdict, note = False, 'its partner `%s` names another parent: %s' % (unparse(p.ast), dv)
+                                break
             obs.append(Ob('R-LINK/L1', f.fq,
                           'attach `%s` is paired with a parent-pointer update of the attached node on '
                           'every path' % unparse(a.ast), verdict,
@@ -178,10 +215,19 @@ def r_link(prog, tier):
                             why = 'element of the list assigned as `%s.children` (`%s`)' % (unparse(p.q), unparse(c.ast))
             verdict, note = True, ''
             if found is None:
-                loose = [a.node for a in atts if path(a.x) is None or path(p.x) is None
+                loose = [a.node for a in atts if path(a.x) is None or path(p.x) is None or path(a.x) == path(p.x)
                          or _same_value(f, a.x, a.node, p.x, p.node)]
                 loose += [c.node for c in evs if c.kind == 'CLR' and not (isinstance(c.value, ast.List) and not c.value.elts)]
                 verdict, note = _absence_verdict(prog, f, p.node, loose, [root_name(p.x), root_name(p.q)])
+                if verdict is None:
+                    for a in atts:
+                        if not cfg.same_loop(a.node, p.node) or not cfg.always_with(p.node, a.node):
+                            continue
+                        if path(a.x) and _same_value(f, a.x, a.node, p.x, p.node):
+                            dv = _provably_differ(prog, f, a.q, a.node, p.q, p.node)
+                            if dv:
+                                verdict, note = False, 'its partner `%s` attaches to another parent: %s' % (unparse(a.ast), dv)
+                                break
             obs.append(Ob('R-LINK/L2', f.fq,
                           'parent-pointer update `%s` is paired with an attach to that parent'
                           % unparse(p.ast), verdict,
@@ -206,7 +252,7 @@ def r_link(prog, tier):
                 ok = True
                 detail = 'DISCARD table: ' + DISCARD[f.fq]
             if not ok:
-                loose = [p.node for p in pars if path(p.x) is None or path(d.x) is None
+                loose = [p.node for p in pars if path(p.x) is None or path(d.x) is None or path(p.x) == path(d.x)
                          or _same_value(f, d.x, d.node, p.x, p.node)]
                 ok, note = _absence_verdict(prog, f, d.node, loose, [root_name(d.x)])
                 if note:
@@ -215,6 +261,42 @@ def r_link(prog, tier):
                           'detach `%s` is followed by re-attachment or explicit discard of the node'
                           % unparse(d.ast), ok, detail, construct='det:' + unparse(d.ast),
                           line=cfg.nodes[d.node].lineno))
+        # L5: a node that this function unhooks somewhere is never attached on a run that skips the unhooking
+        for a in atts:
+            if path(a.x) is None:
+                continue
+            ds = [d for d in dets if cfg.same_loop(a.node, d.node) and _same_value(f, a.x, a.node, d.x, d.node)]
+            if not ds:
+                continue
+            verdict, detail = None, 'the unhooking and the attach are not on comparable paths'
+            if any(cfg.always_with(a.node, d.node) for d in ds):
+                verdict, detail = True, 'every run that attaches the node has unhooked it (`%s`)' % unparse(ds[0].ast)
+            elif _uncovered_path(cfg, a.node, [d.node for d in ds]):
+                here = [x[0] for x in facts_at(cfg, a.node)]
+                for d in ds:
+                    extra = [(fa, nid) for (fa, nid) in facts_at(cfg, d.node) if fa not in here]
+                    groups = {}
+                    for fa, nid in extra:
+                        groups.setdefault(nid, []).append(fa)
+                    pp = path(d.p)
+                    harmless = bool(groups)
+                    for nid, fas in groups.items():
+                        if not any((fa[0] == 'none' and fa[2] is False and (fa[1] == pp or fa[1].endswith('.parent')))
+                                   or (fa[0] == 'truthy' and fa[2] is True and (fa[1] == pp or fa[1].endswith('.parent')))
+                                   for fa in fas):
+                            harmless = False
+                    if harmless:
+                        verdict, detail = True, 'the unhooking `%s` is skipped only for a node without parent' % unparse(d.ast)
+                        break
+                    conds = sorted(set(unparse(cfg.nodes[nid].ast)[:50] for nid in groups if cfg.nodes[nid].ast is not None))
+                    if conds and verdict is None:
+                        verdict = False
+                        detail = 'the unhooking `%s` depends on `%s`, the attach does not: on the other branch the node is ' \
+                                 'attached while it still hangs in its old child list (it ends up listed twice)' % (
+                                     unparse(d.ast), '`, `'.join(conds))
+            obs.append(Ob('R-LINK/L5', f.fq, 'attach `%s` of a node that is unhooked here happens only together with the '
+                          'unhooking' % unparse(a.ast), verdict, detail, construct='att-det:' + unparse(a.ast),
+                          line=cfg.nodes[a.node].lineno))
         # L4: assignments to .children
         for c in evs:
             if c.kind == 'PERM':
@@ -722,10 +804,12 @@ ROOT_EXTRA = ['uncollapse_unary_chains']
 class _RootFlow(object):
     """Forward dataflow of {ROOT, NODE, FRESH, NONE, OTHER} for local names."""
 
-    def __init__(self, prog, func, preserving):
+    def __init__(self, prog, func, preserving, climbing=(), seed='ROOT'):
         self.prog = prog
         self.f = func
         self.preserving = preserving
+        self.climbing = climbing      # functions that return the root of whatever node they are given
+        self.seed = seed
         self.cfg = func.cfg
 
     def val(self, e, st):
@@ -738,8 +822,10 @@ class _RootFlow(object):
             if c == ('trees', 'Tree.__init__'):
                 return 'FRESH'
             if c is not None:
-                if '%s.%s' % c in self.preserving and e.args and isinstance(e.args[0], ast.Name) \
-                        and st.get(e.args[0].id) == 'ROOT':
+                a0 = self.val(e.args[0], st) if e.args and not isinstance(e.args[0], ast.Starred) else None
+                if '%s.%s' % c in self.preserving and a0 == 'ROOT':
+                    return 'ROOT'
+                if '%s.%s' % c in self.climbing and a0 in ('ROOT', 'NODE', 'FRESH'):
                     return 'ROOT'
                 return 'NODE'
             return 'OTHER'
@@ -766,7 +852,7 @@ class _RootFlow(object):
         cfg = self.cfg
         init = {}
         if self.f.params:
-            init[self.f.params[0]] = 'ROOT'
+            init[self.f.params[0]] = self.seed
         state_in = {cfg.entry: init}
         work = [cfg.entry]
         out = {}
@@ -891,6 +977,17 @@ def r_root(prog, tier):
     allf = [f for f in prog.modules['transform'].funcs.values()] + \
            [f for f in prog.modules['trees'].funcs.values()]
     preserving = set(f.fq for f in allf)
+    # climbers: given any node they return the root above it (every return is ROOT although the parameter is
+    # seeded as an arbitrary node and no callee is trusted)
+    climbing = set()
+    for f in allf:
+        if f.params and len(f.params) == 1:
+            try:
+                r = _RootFlow(prog, f, set(), (), 'NODE').returns()
+            except Unrecognised:
+                continue
+            if r and all(x[1] == 'ROOT' for x in r):
+                climbing.add(f.fq)
     # greatest fixpoint: drop functions that have a non-ROOT return
     changed = True
     rets = {}
@@ -903,7 +1000,7 @@ def r_root(prog, tier):
                 preserving.discard(f.fq)
                 changed = True
                 continue
-            r = _RootFlow(prog, f, preserving).returns()
+            r = _RootFlow(prog, f, preserving, climbing).returns()
             rets[f.fq] = r
             bad = [x for x in r if x[1] != 'ROOT' and not (x[1] == 'NONE' and f.fq in FILTERS)]
             # fresh-root idiom
@@ -921,7 +1018,7 @@ def r_root(prog, tier):
                 changed = True
     obs = []
     for f in funcs:
-        r = _RootFlow(prog, f, preserving).returns()
+        r = _RootFlow(prog, f, preserving, climbing).returns()
         for (p, kind, txt) in r:
             node = f.cfg.nodes[p]
             ok = True if kind == 'ROOT' else (None if kind == 'OTHER' else False)
@@ -947,7 +1044,7 @@ def r_root(prog, tier):
                          'preserve the root, or of a .parent step that is not a full climb)'
             obs.append(Ob('R-ROOT', f.fq, 'every return of the transformation hands back the root: %s' % txt,
                           ok, detail, construct='ret:' + txt, line=node.lineno))
-    return obs, {'root_preserving_functions': len(preserving)}
+    return obs, {'root_preserving_functions': len(preserving), 'climb_to_root_functions': len(climbing)}
 
 
 # ------------------------------------------------------------------------------------ R-FRAME
